@@ -219,10 +219,10 @@ pub fn run(tier: &str, seed: u64) -> (Vec<String>, SeqStats) {
                 Some(format!("the table grew from {} to {} bins although the insert only brought the count to {} (< 3/4 of {})", before, after, present.len(), before))
             } else if !may_presize && after != before && before > 0 && !(after % before == 0 && (after / before).is_power_of_two()) {
                 Some(format!("the table went from {} to {} bins (not a doubling chain)", before, after))
-            } else if may_presize && after < model_len {
-                // reserve may over-provision; it must never provide less than the model demands
-                Some(format!("after {} the table has {} bins, fewer than the {} needed for the reservation", what, after, model_len))
             } else {
+                // how much a reservation provides is judged behaviourally in part (b): the
+                // reserved entries must fit without growth
+                let _ = may_presize;
                 None
             };
             // the model follows the implementation wherever the property leaves freedom
